@@ -57,10 +57,21 @@ def reach_under(cfg, start, targets, atom_eval, stop=()):
 def _ladder_loops(func, param):
     """for loops over the ladder parameter: `for x in ladder` or `for i, x in enumerate(ladder)`"""
     out = []
+
+    def is_ladder(e, depth=0):
+        """the ladder parameter itself, a best-first prefix of it (`ladder[:n]`), or a local that only ever
+        names one of these"""
+        if utext(e) == param:
+            return True
+        if isinstance(e, ast.Subscript) and isinstance(e.slice, ast.Slice) and e.slice.lower is None and e.slice.step is None:
+            return is_ladder(e.value, depth)
+        if isinstance(e, ast.Name) and e.id not in func.params and depth < 3:
+            defs = [s.value for s in walk_nodes(func.node.body, ast.Assign) if len(s.targets) == 1 and utext(s.targets[0]) == e.id]
+            return bool(defs) and all(is_ladder(v, depth + 1) for v in defs)
+        return False
     for lp in walk_nodes(func.node.body, ast.For):
         it = lp.iter
-        if utext(it) == param or (isinstance(it, ast.Call) and call_name(it) == "enumerate" and it.args
-                                  and utext(it.args[0]) == param):
+        if is_ladder(it) or (isinstance(it, ast.Call) and call_name(it) == "enumerate" and it.args and is_ladder(it.args[0])):
             out.append(lp)
     return out
 
